@@ -158,6 +158,13 @@ theorem take_min_length {α : Type} (l : List α) (a : Nat) : l.take (min a l.le
   · have h' : l.length ≤ a := by omega
     rw [Nat.min_eq_right h', List.take_of_length_le (Nat.le_refl _), List.take_of_length_le h']
 
+/-- what tiling the file leaves untouched -/
+def Frame (s s' : SrcSt) : Prop :=
+  s'.p.remoteCfg = s.p.remoteCfg ∧ s'.p.tid = s.p.tid ∧ s'.p.closure = s.p.closure ∧ s'.inds = s.inds ∧
+  s'.flts = s.flts ∧ s'.fs = s.fs ∧ s'.p.finishedParams = s.p.finishedParams ∧ s'.state = s.state ∧
+  s'.p.fileSize = s.p.fileSize ∧ s'.putReq = s.putReq ∧ s'.p.metadataOnly = s.p.metadataOnly ∧
+  s'.queue = [] ∧ s'.faults = s.faults ∧ s'.prov = s.prov
+
 /-- the i-th tile after `prog`, as a File Data PDU -/
 def tile (conf : Hdr) (F : List UInt8) (seg prog i : Nat) : Pdu :=
   mkFd conf (prog + i * seg) ((F.drop (prog + i * seg)).take seg)
@@ -173,10 +180,13 @@ theorem C07_stream_tiles (env : Env) (req : PutReq) (src : String) (F : List UIn
           some ((List.range k).map (tile s.p.conf F s.p.segmentLen s.p.progress), s') ∧
         (s'.p.progress = min F.length (s.p.progress + k * s.p.segmentLen)) ∧
         s'.p.conf = s.p.conf ∧ s'.p.segmentLen = s.p.segmentLen ∧
-        (k = 0 ∨ s'.step = .SENDING_FILE_DATA) ∧ Sending s' req src F := by
+        (k = 0 ∨ s'.step = .SENDING_FILE_DATA) ∧ Sending s' req src F ∧ Frame s s' := by
   intro k
   induction k with
-  | zero => intro s hs _; exact ⟨s, by simp [rounds], by simp [hs.hinv.2.1, ← hs.hsize], rfl, rfl, Or.inl rfl, hs⟩
+  | zero =>
+    intro s hs _
+    exact ⟨s, by simp [rounds], by simp [hs.hinv.2.1, ← hs.hsize], rfl, rfl, Or.inl rfl, hs,
+      by simp [Frame, hs.hqueue]⟩
   | succ k ih =>
     intro s hs hk
     have hlt : s.p.progress < s.p.fileSize := by
@@ -206,7 +216,7 @@ theorem C07_stream_tiles (env : Env) (req : PutReq) (src : String) (F : List UIn
           have : k = (k - 1) + 1 := by omega
           rw [this, Nat.add_mul]; simp; omega
         omega
-    obtain ⟨s'', hr, hp, hc, hsg, hst, hS⟩ := ih _ hs' hk'
+    obtain ⟨s'', hr, hp, hc, hsg, hst, hS, hFr⟩ := ih _ hs' hk'
     -- the PDU queued by the call is tile 0 …
     have htake : (F.drop s.p.progress).take (min s.p.segmentLen (F.length - s.p.progress)) =
         (F.drop s.p.progress).take s.p.segmentLen := by
@@ -229,7 +239,7 @@ theorem C07_stream_tiles (env : Env) (req : PutReq) (src : String) (F : List UIn
       have : s.p.progress + s.p.segmentLen + i * s.p.segmentLen = s.p.progress + (i + 1) * s.p.segmentLen := by
         rw [Nat.add_mul]; omega
       rw [this]
-    refine ⟨s'', ?_, ?_, ?_, ?_, ?_, hS⟩
+    refine ⟨s'', ?_, ?_, ?_, ?_, ?_, hS, by simpa [Frame, drained, afterTile] using hFr⟩
     · simp only [rounds, round, hcall, hr, hq]
       rw [List.range_succ_eq_map, List.map_cons, List.map_map]
       congr 1
@@ -315,7 +325,10 @@ theorem C07_eof_call (env : Env) (s : SrcSt) (req : PutReq) (rc : RemoteCfg) (sr
       s'.inds = s.inds ++ (if env.cfg.indEofSent then [.eofSent tid] else []) ++
         (if s.p.conf.mode = .unack ∧ s.p.closure = false ∧ env.cfg.indFinished
           then [.finished (some tid) (s.p.finishedParams.getD ⟨ccNoError, dcComplete, fsUnreported, none⟩)]
-          else []) := by
+          else []) ∧
+      (s.p.conf.mode = .unack → s.p.closure = false → s'.state = .idle ∧ s'.step = .IDLE) ∧
+      (s.p.conf.mode = .ack → s'.state = .busy ∧ s'.step = .WAITING_FOR_EOF_ACK) ∧
+      s'.fs = s.fs ∧ s'.flts = s.flts := by
   have hc : Fs.calcChecksum s.fs (Checksum.CksType.ofNat rc.cks) src F.length s.p.segmentLen = .ok cks := by
     simp [Fs.calcChecksum, hnull, hfile, hcks]
   have hnt1 : rc.ackMs ≠ 0 := by omega
